@@ -239,7 +239,14 @@ def gen_transport(rng, g, name, n1, n2, f, cost_key=None, window=True, extended=
         s, e, k = gen_window(rng, g)
         a['start'], a['end'] = s, e
         a['_window'] = k
-    if extended if extended is not None else rng.random() < 0.35:
+    reverse = False
+    if extended is not True and rng.random() < 0.15:
+        # a link used against its nominal direction (capacities <= 0; costs act on the absolute flow) or - without costs - in both directions
+        if rng.random() < 0.7:
+            a['min_cap'] = -a['max_cap']; a['max_cap'] = pick(rng, [0., 0., r2(a['min_cap'] / 2.)]); a['efficiency'] = 1.; reverse = True
+        elif not a.get('costs_time_series'):
+            a['min_cap'] = -a['max_cap']; a['costs_const'] = 0.; a['efficiency'] = 1.; reverse = True
+    if not reverse and (extended if extended is not None else rng.random() < 0.35):
         a['type'] = 'ExtendedTransport'
         if take and rng.random() < 0.7:
             key, tk = gen_take(rng, g, 0., a['max_cap'], f)
